@@ -63,7 +63,7 @@ func init() {
 		Batch: 5,
 		// every instance carries ~50 MB of pointer-bearing channel buffers that each GC cycle scans
 		ChildEnv:     []string{"GOGC=400"},
-		BatchTimeout: 15 * time.Minute,
+		BatchTimeout: 45 * time.Minute,
 		Run:          c14run,
 		MinDistinct:  40,
 		Need:         []string{"scenarios_judged", "rejections_checked", "accepted_checked", "cells_compared", "restarts", "unchanged_snapshots"},
